@@ -1300,6 +1300,12 @@ func (g *Gen) dateCriteria(v *Snapshot, mode int) *baskettypes.DateCriteria {
 				Seconds: Pick(g.R, []int64{86400, 86400, 315576000000, 315576000001, 1 << 62, 100000}),
 				Nanos:   Pick(g.R, []int32{0, -5, 999999999, 1000000000, -2147483648, 7})}}
 		}
+		if g.R.Chance(0.06) {
+			// a window longer than a time.Duration can express (about 292 years), up to the
+			// 10000 years a protobuf Duration may span
+			g.W.Probe("date_window_longer_than_292_years")
+			return &baskettypes.DateCriteria{StartDateWindow: &gogotypes.Duration{Seconds: int64(g.R.Range(293, 10000)) * 31557600, Nanos: int32(g.R.Intn(2) * g.R.Intn(1000000000))}}
+		}
 		var d time.Duration
 		if len(v.Batches) > 0 && g.R.Chance(0.6) {
 			d = v.Time.Sub(TsTime(v.Batches[g.R.Intn(len(v.Batches))].StartDate)) + time.Duration(g.R.Intn(20))*time.Second
